@@ -274,6 +274,9 @@ func Run(c Cfg, choose Chooser, maxLabels int) Result {
 				if !c.OneWay {
 					opts = append(opts, "DR")
 				}
+				if !c.OneWay && !ex.Done() { // asynchronous TerminateStream while the worker is parked
+					opts = append(opts, "TM418")
+				}
 			}
 			// timer labels: only the earliest deadline, and only when the other one is far enough
 			if hasPT && (!hasGT || pt+timerGap < gt) {
